@@ -180,6 +180,30 @@ where
     acc.add(25, guard(|| n_row(<A as AKey<Entity<A>>>::r_slices(w, kt, 2))));
 }
 
+/// Typed key built with `from_any_unchecked` from a handle carrying ANOTHER archetype's id bits
+/// (release builds only; debug builds assert at the conversion). Typed lookups go to the storage
+/// named by the type and use position and generation only.
+fn probe_ent_unchecked<A>(w: &mut VW, any: EntityAny, acc: &mut Acc)
+where
+    A: AOps + AKey<Entity<A>> + ATyped<Entity<A>>,
+{
+    let kt = Entity::<A>::from_any_unchecked(any);
+    acc.add(0, guard(|| n_bool(<A as ATyped<Entity<A>>>::w_contains(w, kt))));
+    acc.add(2, guard(|| n_dir(<A as ATyped<Entity<A>>>::w_to_direct(w, kt))));
+    acc.add(4, guard(|| n_bool(<A as AKey<Entity<A>>>::a_contains(w, kt))));
+    acc.add(6, guard(|| n_res(<A as AKey<Entity<A>>>::a_resolve(w, kt))));
+    acc.add(8, guard(|| n_dir(<A as AKey<Entity<A>>>::a_to_direct(w, kt))));
+    acc.add(10, guard(|| n_row(<A as AKey<Entity<A>>>::r_view_arch(w, kt))));
+    acc.add(12, guard(|| n_row(<A as AKey<Entity<A>>>::r_viewc_arch(w, kt))));
+    acc.add(13, guard(|| n_row(<A as AKey<Entity<A>>>::r_borrow_arch(w, kt))));
+    acc.add(15, guard(|| n_row(<A as ATyped<Entity<A>>>::r_view_world(w, kt))));
+    acc.add(16, guard(|| n_row(<A as ATyped<Entity<A>>>::r_borrow_world(w, kt))));
+    acc.add(17, guard(|| n_row(<A as AKey<Entity<A>>>::r_find(w, kt))));
+    acc.add(19, guard(|| n_row(<A as AKey<Entity<A>>>::r_findb(w, kt))));
+    acc.add(23, guard(|| n_row(<A as AKey<Entity<A>>>::r_slices(w, kt, 0))));
+    acc.add(25, guard(|| n_row(<A as AKey<Entity<A>>>::r_slices(w, kt, 2))));
+}
+
 /// Archetype-level lookups of a dynamic key on an archetype other than the one its id names.
 fn probe_ent_other<A>(w: &mut VW, any: EntityAny, acc: &mut Acc)
 where
@@ -334,7 +358,7 @@ fn observe_arch<A>(w: &mut VW, step: u64, max_dump: usize, minted: &mut Vec<Enti
 where
     A: AOps + AKey<Entity<A>> + AKey<EntityAny> + ATyped<Entity<A>>,
 {
-    let sp = ((step + A::IDX as u64) % 9) as u8;
+    let sp = ((step + A::IDX as u64) % 11) as u8;
     let mv = step % 4;
     let (len, cap, emp) = { let a = A::arch(w); (a.len(), a.capacity(), a.is_empty()) };
     let snap = guard(|| A::snapshot(w, sp));
@@ -546,6 +570,23 @@ impl H {
             let (own, oth) = probe_entity(w, t);
             pe.push(J::O(vec![("k", jtok(t)), ("c", J::s(cls)), ("own", own.json()), ("oth", oth.json()), ("n", ji(own.n + oth.n))]));
         }
+        if !cfg!(debug_assertions) {
+            // unchecked typed conversion of a live handle of archetype B into Entity<A>: identified,
+            // as documented ("logic errors"), by (type A, position, generation)
+            let mut extra: Vec<(usize, Tok)> = Vec::new();
+            for t in self.pool[wi].iter().rev().take(6) {
+                let own = arch_of_id((t.0 & 0xff) as u8);
+                for ai in 0..NARCH {
+                    if Some(ai) != own && (step as usize + ai) % 2 == 0 { extra.push((ai, *t)); }
+                }
+            }
+            for (ai, t) in extra {
+                let mut acc = Acc::default();
+                with_arch!(ai, A => probe_ent_unchecked::<A>(w, any_of(t), &mut acc));
+                let eff: Tok = ((t.0 & !0xff) | ARCH_IDS[ai] as u32, t.1);
+                pe.push(J::O(vec![("k", jtok(eff)), ("c", J::s("unchecked_foreign_bits")), ("own", acc.json()), ("oth", J::A(vec![])), ("n", ji(acc.n))]));
+            }
+        }
         let mut pd = Vec::new();
         for (cls, d) in dkeys {
             let (own, oth) = probe_direct(w, d);
@@ -649,7 +690,10 @@ impl H {
     }
 
     pub fn op_init(&mut self, wi: usize, caps: [usize; NARCH]) {
-        let r = guard(|| VW::with_capacity(VWCapacity { ap: caps[0], aq: caps[1], ar: caps[2], aw: caps[3] }));
+        let zero = caps.iter().all(|c| *c == 0);
+        let variant = self.step % 3;
+        let r = guard(|| if zero && variant == 1 { VW::new() } else if zero && variant == 2 { VW::default() }
+                         else { VW::with_capacity(VWCapacity { ap: caps[0], aq: caps[1], ar: caps[2], aw: caps[3] }) });
         let out = match r {
             Ok(w) => { self.worlds[wi] = Some(w); self.pool[wi].clear(); self.dpool[wi].clear(); jt("ok") }
             Err(()) => jp(),
